@@ -88,7 +88,7 @@ def run_case(case):
     with core.workdir() as d:
         gaf_path, table = idx.materialize(d, case)
         gfa_path = d + "/g.gfa"
-        r = idx.build_index(gaf_path, gfa_path, d + "/in.gvi")
+        r = idx.build_index(gaf_path, gfa_path, d + "/in.gvi", stale=len(case["gaf"]) % 3 == 1)
         core.check(r[0] == "ok", "index failed: %s", r)
         limit = 1000 * (len(aligned) + 10)
         res, whole = idx.run_view(d, gaf_path, gfa_path, d + "/conv.txt", fmt=fmt)
